@@ -11,7 +11,8 @@
      top   : [includes : Seq(STRING) (".itp" stripped), molecules : Seq([name, n]), defines : Seq(STRING),
               malformed : Seq(STRING)]
      own   : Seq(itp)                    what the ITP writer states for molecule j written on its own under names[j]
-     extra : [kind : "none" | "go" | "vs", atomtypes : Seq(STRING), nbparams : Seq(Seq(STRING)), malformed : Seq(STRING)]
+     extra : [kind : "none" | "go" | "vs", atomtypes : Seq(STRING), atparams : Seq(Seq(STRING)) (the other columns),
+              nbparams : Seq(<<type, type>>), nbvalues : Seq(Seq(STRING)) (the other columns), malformed : Seq(STRING)]
              the [ atomtypes ] / [ nonbond_params ] files of a Go-model or water-bias run (go_ resp. virtual_sites_ prefix)
      opt   : [judged, go, sep : BOOLEAN, molname : STRING, chains : Seq(STRING), merge : Seq(Seq(STRING)), all : BOOLEAN]
              what the command line was asked for (judged = FALSE: library run, no option clause applies)
@@ -53,13 +54,11 @@ TypeOf(r) == r.p[1]
    text; either end of a right-aligned text).  This is all "the same residue number / name" can mean in a fixed-column
    file, and it is what the statement is taken to require there.                                                   *)
 Field(table, f) == table[FC!FieldIdx(table, f)]
-Holds(table, f, shown, value) == shown \in FC!Admissible(Field(table, f), value)
-PdbSays(a, r) == /\ Holds(FC!PdbAtomW, "name", a.name, r.p[4])
-                 /\ Holds(FC!PdbAtomW, "resname", a.resname, r.p[3])
-                 /\ Holds(FC!PdbAtomW, "resid", a.resid, r.p[2])
-GroSays(a, r) == /\ Holds(FC!GroAtomW, "name", a.name, r.p[4])
-                 /\ Holds(FC!GroAtomW, "resname", a.resname, r.p[3])
-                 /\ Holds(FC!GroAtomW, "resid", a.resid, r.p[2])
+PdbName == Field(FC!PdbAtomW, "name")   PdbResname == Field(FC!PdbAtomW, "resname")   PdbResid == Field(FC!PdbAtomW, "resid")
+GroName == Field(FC!GroAtomW, "name")   GroResname == Field(FC!GroAtomW, "resname")   GroResid == Field(FC!GroAtomW, "resid")
+Holds(field, shown, value) == shown = value \/ shown \in FC!Admissible(field, value)
+PdbSays(a, r) == Holds(PdbName, a.name, r.p[4]) /\ Holds(PdbResname, a.resname, r.p[3]) /\ Holds(PdbResid, a.resid, r.p[2])
+GroSays(a, r) == Holds(GroName, a.name, r.p[4]) /\ Holds(GroResname, a.resname, r.p[3]) /\ Holds(GroResid, a.resid, r.p[2])
 
 NoName(itp) == [nrexcl |-> itp.nrexcl, recs |-> itp.recs]
 FirstOcc(s, j) == CHOOSE i \in DOMAIN s : s[i] = s[j] /\ \A q \in DOMAIN s : s[q] = s[j] => i <= q
@@ -120,6 +119,11 @@ Extra(e) ==
      ELSE IF \E t \in declared : t \notin used THEN "extra:declared-atom-type-that-no-written-molecule-type-uses"
      ELSE IF \E i \in DOMAIN e.extra.nbparams : \E t \in Range(e.extra.nbparams[i]) : NeedsDecl(t) /\ t \notin declared
           THEN "extra:nonbond-params-name-an-undeclared-virtual-site-type"
+     ELSE IF \E i, j \in DOMAIN e.extra.atomtypes : e.extra.atomtypes[i] = e.extra.atomtypes[j] /\ e.extra.atparams[i] # e.extra.atparams[j]
+          THEN "extra:one-atom-type-declared-with-different-parameters"
+     ELSE IF \E i, j \in DOMAIN e.extra.nbparams : /\ Range(e.extra.nbparams[i]) = Range(e.extra.nbparams[j])
+                                                  /\ e.extra.nbvalues[i] # e.extra.nbvalues[j]
+          THEN "extra:one-pair-of-types-given-different-nonbond-params"
      ELSE ""
 
 (* group 4: the output-shaping options of the command line (beyond the statement; named "option:") *)
@@ -168,9 +172,10 @@ ReadBack(e) ==
           THEN "readback:read_gro-atom-differs-in-name-residue-or-order"
      ELSE IF {rb.itps[i].name : i \in DOMAIN rb.itps} # {e.itps[i].name : i \in DOMAIN e.itps}
           THEN "readback:not-every-itp-was-read-back"
-     ELSE IF \E i \in DOMAIN rb.itps : ItpV(rb.itps[i]) \notin {"ok", "excluded"}
-          THEN "readback:read_itp-" \o ItpV(rb.itps[CHOOSE i \in DOMAIN rb.itps : ItpV(rb.itps[i]) \notin {"ok", "excluded"}])
-     ELSE ""
+     ELSE LET vs == [i \in DOMAIN rb.itps |-> ItpV(rb.itps[i])]
+          IN IF \E i \in DOMAIN vs : vs[i] \notin {"ok", "excluded"}
+             THEN "readback:read_itp-" \o vs[CHOOSE i \in DOMAIN vs : vs[i] \notin {"ok", "excluded"}]
+             ELSE ""
 
 (* group 6: history - a second write of the same system states the same thing *)
 Again(e) ==
@@ -205,6 +210,7 @@ Join(parts) == LET bad == SelectSeq(parts, LAMBDA s : s # "") IN IF bad = <<>> T
 
 Judge(e) ==
   IF e.refused THEN (IF Clash(e) THEN "ok" ELSE "writer-refused-a-system-whose-names-are-consistent")
+  ELSE IF Clash(e) THEN "same-name-for-molecules-with-different-topologies"
   ELSE LET s == Structure(e)
        IN IF s # "" THEN s
           ELSE Join(<<Core(e), Extra(e), Option(e), ReadBack(e), Again(e), Hist(e), Gro(e)>>)
